@@ -92,7 +92,7 @@ def r1_overrides(chk: Check) -> None:
             continue
         f = users[0]
         text = unparse(f.node, 100000)
-        chk.decide("for_operation(" in text and "as_strategy_kwargs" in text, "C14.R1", f, "OverrideMark -> as_strategy_kwargs", "the override mark is read but not forwarded into the strategy kwargs", f.loc())
+        chk.expect("for_operation(" in text and "as_strategy_kwargs" in text, "C14.R1", f, "OverrideMark -> as_strategy_kwargs", "the override mark is read but not forwarded into the strategy kwargs", f.loc())
 
 
 # --------------------------------------------------------------------------------------------- R2
@@ -229,7 +229,7 @@ def r4_set_on_case(chk: Check) -> None:
         chk.undecided("C14.R4", st, "AuthStorage.set iterates providers", "loop not found", st.loc())
     else:
         text = unparse(loop, 1000)
-        chk.decide("provider.get(case, context)" in text and "provider.set(case, data, context)" in text, "C14.R4", st, "provider.get then provider.set", "provider data is fetched but not set on the case", st.loc(loop))
+        chk.expect("provider.get(case, context)" in text and "provider.set(case, data, context)" in text, "C14.R4", st, "provider.get then provider.set", "provider data is fetched but not set on the case", st.loc(loop))
 
 
 # --------------------------------------------------------------------------------------------- R5
